@@ -42,6 +42,9 @@ func init() {
 			"	defer s.mutex.Unlock()\n	s.PathConfs = pathConfs\n", "	defer s.mutex.Unlock()\n	_ = pathConfs\n", "C13.reload_applied.stored"},
 		Mutant{"C13", "hot-reload-unguarded-dropped", "internal/core/core.go",
 			"	if !closePathManager && !reflect.DeepEqual(newConf.Paths, currentConf.Paths) {\n		p.pathManager.ReloadPathConfs(newConf.Paths)\n	}\n", "", "C13.use_covered"},
+		// the in-place reload fires when the paths did NOT change
+		Mutant{"C13", "hot-reload-guard-inverted", "internal/core/core.go",
+			"	if !closePathManager && !reflect.DeepEqual(newConf.Paths, currentConf.Paths) {\n", "	if !closePathManager && reflect.DeepEqual(newConf.Paths, currentConf.Paths) {\n", "C13.use_covered"},
 	)
 }
 
@@ -72,7 +75,7 @@ func runC13(c *Ctx) {
 	if p == nil {
 		return
 	}
-	c.Explain = "USE(X) = currentConf.F selectors inside the creation block of component X in Core.createResources; DEP(X) = p.<component> selectors and `Parent: p` there; CMP(X) = fields compared in closeX := ... in Core.closeResources; INC(X) = or-ed close flags; HOT(X) = newConf.F selectors in an if guarded by !closeX. Rules: USE ⊆ CMP* ∪ HOT (closure over INC); DEP ⊆ INC*; newConf == nil in every flag; close block exists per component; dependants closed before / created after dependencies; CMP ⊆ USE* ; no pointer identity comparison. Not decided: what Initialize() does with the fields."
+	c.Explain = "USE(X) = currentConf.F selectors inside the creation block of component X in Core.createResources; DEP(X) = p.<component> selectors and `Parent: p` there; CMP(X) = fields compared in closeX := ... in Core.closeResources; INC(X) = or-ed close flags; HOT(X) = newConf.F selectors in an if guarded by !closeX. Rules: USE ⊆ CMP* ∪ HOT (closure over INC); DEP ⊆ INC*; newConf == nil in every flag; close block exists per component; dependants closed before / created after dependencies; CMP ⊆ USE* ; no pointer identity comparison. The two configurations are told apart by role (new = the *conf.Conf parameter of closeResources, current = any other *conf.Conf expression), close flags are the locals that guard a `p.X = nil` (whatever they are called), single-definition locals are names for their defining expression (conditions, arguments, literals), `!`/De Morgan/operand order/nested-vs-merged ifs are immaterial (prop_gen_c13.go). Not decided: what Initialize() does with the fields."
 	c.Assume = []string{"a component's behaviour depends on the configuration only through the conf fields read in its creation block"}
 	c.Explain += " reload_applied (go/ssa, prop_r3_c13.go): for every Reload* method Core.closeResources calls, stored: its payload parameter flows (through selects/sends on a struct-field channel, received by the component's run loop, and static calls) into a Store to a field F of the component; no_stale: in every function of the component's package that stores F or calls a function that does, a walk from that point reaches no instruction with an operand derived (data flow from loads of F and from results of functions reading F, through locals) from F, unless a new read of F is passed first."
 
@@ -93,8 +96,10 @@ func runC13(c *Ctx) {
 		c.Undecided("UNRESOLVED ANCHOR types core.Core / conf.Conf")
 		return
 	}
-	isCoreSel := func(e ast.Expr) (string, bool) {
-		se, ok := e.(*ast.SelectorExpr)
+	LC := c13singleDefLocals(pk, cl) // closeResources: names
+	LR := c13singleDefLocals(pk, cr) // createResources: names
+	isCoreSelIn := func(L *c13locals, e ast.Expr) (string, bool) {
+		se, ok := L.resolve(e).(*ast.SelectorExpr)
 		if !ok {
 			return "", false
 		}
@@ -105,190 +110,234 @@ func runC13(c *Ctx) {
 		}
 		return "", false
 	}
-	isConfSel := func(e ast.Expr, recvName string) (string, bool) {
-		se, ok := e.(*ast.SelectorExpr)
-		if !ok {
-			return "", false
-		}
-		id, ok := se.X.(*ast.Ident)
-		if !ok || id.Name != recvName {
-			return "", false
-		}
-		if tv, ok := pk.TypesInfo.Types[se.X]; ok && namedOf(tv.Type) == confT {
-			if sel, ok := pk.TypesInfo.Selections[se]; ok && sel.Kind() == types.FieldVal {
-				return se.Sel.Name, true
+	// The two configurations are told apart by ROLE, not by name: the NEW
+	// configuration is the *conf.Conf parameter of closeResources; every other
+	// expression of type *conf.Conf (a local loaded from p.conf, the load itself)
+	// is the CURRENT one.
+	var newObj types.Object
+	if cl.Type.Params != nil {
+		for _, f := range cl.Type.Params.List {
+			for _, id := range f.Names {
+				if o := pk.TypesInfo.Defs[id]; o != nil && namedOf(o.Type()) == confT {
+					newObj = o
+				}
 			}
+		}
+	}
+	if newObj == nil {
+		c.Undecided("UNRESOLVED ANCHOR Core.closeResources has no *conf.Conf parameter (the new configuration)")
+		return
+	}
+	const (
+		roleNew = "newConf"
+		roleCur = "currentConf"
+	)
+	confSelIn := func(L *c13locals, e ast.Expr) (field, role string, ok bool) {
+		se, isSel := L.resolve(e).(*ast.SelectorExpr)
+		if !isSel {
+			return "", "", false
+		}
+		tv, has := pk.TypesInfo.Types[se.X]
+		if !has || namedOf(tv.Type) != confT {
+			return "", "", false
+		}
+		if sel, has := pk.TypesInfo.Selections[se]; !has || sel.Kind() != types.FieldVal {
+			return "", "", false
+		}
+		if o := L.objOf(se.X); o != nil && o == newObj {
+			return se.Sel.Name, roleNew, true
+		}
+		return se.Sel.Name, roleCur, true
+	}
+	isConfSel := func(e ast.Expr, role string) (string, bool) {
+		if f, r, ok := confSelIn(LC, e); ok && r == role {
+			return f, true
 		}
 		return "", false
 	}
 
+	// ---------- closeResources: close blocks  (p.x = nil under a close flag)
+	// A close FLAG is a name whose definition is a disjunction (or a single
+	// comparison) and that guards a `p.x = nil`; a name defined as a conjunction,
+	// a negation or another name is only an abbreviation and is looked through.
+	flagShaped := func(_ types.Object, d ast.Expr) bool {
+		switch x := unparen(d).(type) {
+		case *ast.Ident, *ast.UnaryExpr:
+			return false
+		case *ast.BinaryExpr:
+			return x.Op != token.LAND
+		}
+		return true
+	}
+	compFlag := map[string]string{}
+	flagObj := map[types.Object]string{}
+	flagDef := map[string]ast.Expr{}
+	flagPos := map[string]token.Pos{}
+	closePos := map[string]token.Pos{}   // last close block of a component
+	firstClose := map[string]token.Pos{} // first close block of a component
+	LC.walk(cl.Body.List, nil, flagShaped, func(st ast.Stmt, conds []c13lit) {
+		x, ok := st.(*ast.AssignStmt)
+		if !ok || len(x.Lhs) != 1 || len(x.Rhs) != 1 || !c13isNil(pk, x.Rhs[0]) {
+			return
+		}
+		f, ok := isCoreSelIn(LC, x.Lhs[0])
+		if !ok {
+			return
+		}
+		for _, cd := range conds {
+			if cd.neg {
+				continue
+			}
+			o, d := LC.defOf(cd.e)
+			if d == nil {
+				continue
+			}
+			compFlag[f] = o.Name()
+			flagObj[o] = o.Name()
+			flagDef[o.Name()] = d
+			flagPos[o.Name()] = o.Pos()
+			closePos[f] = x.Pos()
+			if q, ok := firstClose[f]; !ok || x.Pos() < q {
+				firstClose[f] = x.Pos()
+			}
+		}
+	})
+	isFlag := func(o types.Object, _ ast.Expr) bool { return flagObj[o] != "" }
+
 	// ---------- closeResources: flags
 	flags := map[string]*c13flag{}
 	var flagOrder []string
-	for _, st := range cl.Body.List {
-		as, ok := st.(*ast.AssignStmt)
-		if !ok || as.Tok != token.DEFINE || len(as.Lhs) != 1 || len(as.Rhs) != 1 {
-			continue
+	for name := range flagDef {
+		flagOrder = append(flagOrder, name)
+	}
+	sort.Slice(flagOrder, func(i, j int) bool { return flagPos[flagOrder[i]] < flagPos[flagOrder[j]] })
+	for _, name := range flagOrder {
+		fl := &c13flag{name: name, cmp: map[string]token.Pos{}, derived: map[string]bool{}, hot: map[string]bool{}, pos: flagPos[name]}
+		for _, d := range LC.lits(flagDef[name], token.LOR, false, isFlag) {
+			c13disjunct(pk, LC, d, fl, newObj, flagObj, isConfSel)
 		}
-		id, ok := as.Lhs[0].(*ast.Ident)
-		if !ok || !strings.HasPrefix(id.Name, "close") {
-			continue
-		}
-		fl := &c13flag{name: id.Name, cmp: map[string]token.Pos{}, derived: map[string]bool{}, hot: map[string]bool{}, pos: as.Pos()}
-		for _, d := range flattenBin(as.Rhs[0], token.LOR) {
-			c13disjunct(pk, d, fl, isConfSel)
-		}
-		flags[id.Name] = fl
-		flagOrder = append(flagOrder, id.Name)
+		flags[name] = fl
 	}
 	c.Floor("C13.flags", len(flags), 16)
-	// hot reload blocks: if !closeX && ... { ... newConf.F ... }
-	for _, st := range cl.Body.List {
-		ifs, ok := st.(*ast.IfStmt)
-		if !ok {
-			continue
+	// hot reload: a call handing newConf.F to a component, running only when the
+	// component's flag is false and F differs (merged or nested guards, named or not)
+	LC.walk(cl.Body.List, nil, isFlag, func(st ast.Stmt, conds []c13lit) {
+		var under []*c13flag
+		differs := &c13flag{cmp: map[string]token.Pos{}, derived: map[string]bool{}, hot: map[string]bool{}}
+		for _, cd := range conds {
+			if o, _ := LC.defOf(cd.e); o != nil && cd.neg && flagObj[o] != "" {
+				under = append(under, flags[flagObj[o]])
+				continue
+			}
+			c13disjunct(pk, LC, cd, differs, newObj, flagObj, isConfSel)
 		}
-		for _, cj := range flattenBin(ifs.Cond, token.LAND) {
-			un, ok := unparen(cj).(*ast.UnaryExpr)
-			if !ok || un.Op != token.NOT {
-				continue
-			}
-			id, ok := unparen(un.X).(*ast.Ident)
-			if !ok || flags[id.Name] == nil {
-				continue
-			}
-			// the body must hand newConf.F to a method of the component
-			ast.Inspect(ifs.Body, func(n ast.Node) bool {
-				call, ok := n.(*ast.CallExpr)
-				if !ok {
-					return true
-				}
-				for _, a := range call.Args {
-					if f, ok := isConfSel(a, "newConf"); ok {
-						// and the guard must compare the same field so the reload fires on every change
-						guardHas := false
-						ast.Inspect(ifs.Cond, func(m ast.Node) bool {
-							if e, ok := m.(ast.Expr); ok {
-								if g, ok := isConfSel(e, "newConf"); ok && g == f {
-									guardHas = true
-								}
-							}
-							return true
-						})
-						if guardHas {
-							flags[id.Name].hot[f] = true
-						}
-					}
-				}
+		if len(under) == 0 {
+			return
+		}
+		ast.Inspect(st, func(n ast.Node) bool {
+			call, ok := n.(*ast.CallExpr)
+			if !ok {
 				return true
-			})
-		}
-	}
-
-	// ---------- closeResources: close blocks  (p.x = nil under closeX)
-	compFlag := map[string]string{}
-	closePos := map[string]token.Pos{}   // last close block of a component
-	firstClose := map[string]token.Pos{} // first close block of a component
-	var walkClose func(n ast.Node, conds []ast.Expr)
-	walkClose = func(n ast.Node, conds []ast.Expr) {
-		switch x := n.(type) {
-		case *ast.BlockStmt:
-			for _, s := range x.List {
-				walkClose(s, conds)
 			}
-		case *ast.IfStmt:
-			walkClose(x.Body, append(append([]ast.Expr{}, conds...), x.Cond))
-			if x.Else != nil {
-				walkClose(x.Else, conds)
-			}
-		case *ast.AssignStmt:
-			if len(x.Lhs) == 1 && len(x.Rhs) == 1 {
-				if f, ok := isCoreSel(x.Lhs[0]); ok {
-					if id, ok := x.Rhs[0].(*ast.Ident); ok && id.Name == "nil" {
-						for _, cd := range conds {
-							for _, cj := range flattenBin(cd, token.LAND) {
-								if id, ok := unparen(cj).(*ast.Ident); ok && flags[id.Name] != nil {
-									compFlag[f] = id.Name
-									closePos[f] = x.Pos()
-									if q, ok := firstClose[f]; !ok || x.Pos() < q {
-										firstClose[f] = x.Pos()
-									}
-								}
-							}
+			for _, a := range call.Args {
+				if f, ok := isConfSel(a, roleNew); ok {
+					// the guard must compare the same field so the reload fires on every change
+					if _, has := differs.cmp[f]; has {
+						for _, fl := range under {
+							fl.hot[f] = true
 						}
 					}
 				}
 			}
-		}
-	}
-	walkClose(cl.Body, nil)
+			return true
+		})
+	})
 
 	// ---------- createResources: components
 	comps := map[string]*c13comp{}
 	var compOrder []string
-	var walkCreate func(stmts []ast.Stmt)
-	walkCreate = func(stmts []ast.Stmt) {
+	var recvObj types.Object
+	if cr.Recv != nil && len(cr.Recv.List) == 1 && len(cr.Recv.List[0].Names) == 1 {
+		recvObj = pk.TypesInfo.Defs[cr.Recv.List[0].Names[0]]
+	}
+	var walkCreate func(stmts []ast.Stmt, outer []ast.Expr)
+	walkCreate = func(stmts []ast.Stmt, outer []ast.Expr) {
 		for _, st := range stmts {
+			if b, ok := st.(*ast.BlockStmt); ok {
+				walkCreate(b.List, outer)
+				continue
+			}
 			ifs, ok := st.(*ast.IfStmt)
 			if !ok {
 				continue
 			}
-			// which component does this if create?  `p.X == nil` in the condition
+			// which component does this if create?  `p.X == nil` among the conjuncts
 			var comp string
-			for _, cj := range flattenBin(ifs.Cond, token.LAND) {
-				if be, ok := unparen(cj).(*ast.BinaryExpr); ok && be.Op == token.EQL {
-					if id, ok := be.Y.(*ast.Ident); ok && id.Name == "nil" {
-						if f, ok := isCoreSel(be.X); ok {
+			for _, cj := range LR.lits(ifs.Cond, token.LAND, false, nil) {
+				if x, y, differ, ok := c13eqParts(cj); ok && !differ {
+					if c13isNil(pk, x) {
+						x, y = y, x
+					}
+					if c13isNil(pk, y) {
+						if f, ok := isCoreSelIn(LR, x); ok {
 							comp = f
 						}
 					}
 				}
 			}
-			if comp == "" {
-				// `if initial { ... }` and similar: not a reloadable component
-				continue
-			}
 			// the block must assign p.comp
 			assigns := false
-			ast.Inspect(ifs.Body, func(n ast.Node) bool {
-				if as, ok := n.(*ast.AssignStmt); ok {
-					for _, l := range as.Lhs {
-						if f, ok := isCoreSel(l); ok && f == comp {
-							assigns = true
+			if comp != "" {
+				ast.Inspect(ifs.Body, func(n ast.Node) bool {
+					if as, ok := n.(*ast.AssignStmt); ok {
+						for _, l := range as.Lhs {
+							if f, ok := isCoreSelIn(LR, l); ok && f == comp {
+								assigns = true
+							}
 						}
 					}
-				}
-				return true
-			})
+					return true
+				})
+			}
 			if !assigns {
+				// `if initial { ... }`, or one half of a guard that was split in two
+				// nested ifs: the component blocks inside inherit this condition
+				in := append(append([]ast.Expr{}, outer...), ifs.Cond)
+				walkCreate(ifs.Body.List, in)
+				if ifs.Else != nil {
+					walkCreate([]ast.Stmt{ifs.Else}, in)
+				}
 				continue
 			}
 			cm := &c13comp{field: comp, use: map[string]token.Pos{}, deps: map[string]bool{}, createAt: ifs.Pos()}
-			ast.Inspect(ifs, func(n ast.Node) bool {
+			visit := func(n ast.Node) bool {
 				switch x := n.(type) {
 				case *ast.SelectorExpr:
-					if f, ok := isConfSel(x, "currentConf"); ok {
+					if f, _, ok := confSelIn(LR, x); ok {
 						if _, dup := cm.use[f]; !dup {
 							cm.use[f] = x.Pos()
 						}
 					}
-					if f, ok := isCoreSel(x); ok && f != comp {
+					if f, ok := isCoreSelIn(LR, x); ok && f != comp {
 						cm.deps[f] = true
 					}
 				case *ast.KeyValueExpr:
-					if k, ok := x.Key.(*ast.Ident); ok && (k.Name == "Parent" || k.Name == "parent") {
-						if id, ok := x.Value.(*ast.Ident); ok && id.Name == "p" {
-							cm.parentP = true
-						}
+					// the component is handed the Core itself (its log parent)
+					if o := LR.objOf(x.Value); o != nil && o == recvObj {
+						cm.parentP = true
 					}
 				}
 				return true
-			})
+			}
+			LR.inspect(ifs, visit)
+			for _, oc := range outer {
+				LR.inspect(oc, visit)
+			}
 			comps[comp] = cm
 			compOrder = append(compOrder, comp)
 		}
 	}
-	walkCreate(cr.Body.List)
+	walkCreate(cr.Body.List, nil)
 	c.Floor("C13.components", len(comps), 16)
 
 	// closure of INC
@@ -399,56 +448,63 @@ func runC13(c *Ctx) {
 	}
 }
 
-func c13disjunct(pk *packages.Package, d ast.Expr, fl *c13flag, isConfSel func(ast.Expr, string) (string, bool)) {
-	d = unparen(d)
-	if id, ok := d.(*ast.Ident); ok {
-		fl.inc = append(fl.inc, id.Name)
+// c13disjunct classifies one literal of a close predicate ("the component must be
+// closed when ..."). Operand order, `!(a == b)` for `a != b` and names are
+// immaterial (see prop_gen_c13.go).
+func c13disjunct(pk *packages.Package, L *c13locals, d c13lit, fl *c13flag, newObj types.Object, flagObj map[types.Object]string, isConfSel func(ast.Expr, string) (string, bool)) {
+	if o, _ := L.defOf(d.e); o != nil && flagObj[o] != "" && !d.neg {
+		fl.inc = append(fl.inc, flagObj[o])
 		return
 	}
-	if be, ok := d.(*ast.BinaryExpr); ok && be.Op == token.EQL {
-		if x, ok := be.X.(*ast.Ident); ok && x.Name == "newConf" {
-			if y, ok := be.Y.(*ast.Ident); ok && y.Name == "nil" {
+	// the same field of the two configurations, in either order
+	pair := func(a, b ast.Expr) (string, bool) {
+		fa, oka := isConfSel(a, "newConf")
+		fb, okb := isConfSel(b, "currentConf")
+		if !(oka && okb) {
+			fa, oka = isConfSel(b, "newConf")
+			fb, okb = isConfSel(a, "currentConf")
+		}
+		return fa, oka && okb && fa == fb
+	}
+	if x, y, differ, ok := c13eqParts(d); ok {
+		if c13isNil(pk, x) {
+			x, y = y, x
+		}
+		if c13isNil(pk, y) && !differ {
+			if o := L.objOf(x); o != nil && o == newObj {
 				fl.hasNil = true
 				return
 			}
 		}
-	}
-	if be, ok := d.(*ast.BinaryExpr); ok && be.Op == token.NEQ {
-		fa, oka := isConfSel(be.X, "newConf")
-		fb, okb := isConfSel(be.Y, "currentConf")
-		if oka && okb && fa == fb {
-			fl.cmp[fa] = be.Pos()
-			if tv, ok := pk.TypesInfo.Types[be.X]; ok {
-				if _, isPtr := tv.Type.Underlying().(*types.Pointer); isPtr {
-					fl.ptrCmp = append(fl.ptrCmp, fa)
+		if differ {
+			if f, ok := pair(x, y); ok {
+				fl.cmp[f] = d.e.Pos()
+				if tv, ok := pk.TypesInfo.Types[L.resolve(x)]; ok {
+					if _, isPtr := tv.Type.Underlying().(*types.Pointer); isPtr {
+						fl.ptrCmp = append(fl.ptrCmp, f)
+					}
 				}
-			}
-			return
-		}
-		// f(newConf.F) != f(currentConf.F)
-		ca, oka2 := be.X.(*ast.CallExpr)
-		cb, okb2 := be.Y.(*ast.CallExpr)
-		if oka2 && okb2 && len(ca.Args) == 1 && len(cb.Args) == 1 && exprStr(ca.Fun) == exprStr(cb.Fun) {
-			fa, oka := isConfSel(ca.Args[0], "newConf")
-			fb, okb := isConfSel(cb.Args[0], "currentConf")
-			if oka && okb && fa == fb {
-				fl.derived[fa] = true
 				return
 			}
-		}
-	}
-	if un, ok := d.(*ast.UnaryExpr); ok && un.Op == token.NOT {
-		if call, ok := unparen(un.X).(*ast.CallExpr); ok && len(call.Args) == 2 {
-			fn := objFullName(calleeObj(pk, call))
-			if fn == "reflect.DeepEqual" || fn == "slices.Equal" {
-				fa, oka := isConfSel(call.Args[0], "newConf")
-				fb, okb := isConfSel(call.Args[1], "currentConf")
-				if oka && okb && fa == fb {
-					fl.cmp[fa] = call.Pos()
+			// f(newConf.F) != f(currentConf.F)
+			ca, oka := L.resolve(x).(*ast.CallExpr)
+			cb, okb := L.resolve(y).(*ast.CallExpr)
+			if oka && okb && len(ca.Args) == 1 && len(cb.Args) == 1 && exprStr(ca.Fun) == exprStr(cb.Fun) {
+				if f, ok := pair(ca.Args[0], cb.Args[0]); ok {
+					fl.derived[f] = true
 					return
 				}
 			}
 		}
 	}
-	fl.other = append(fl.other, exprStr(d))
+	if call, ok := L.resolve(d.e).(*ast.CallExpr); ok && d.neg && len(call.Args) == 2 {
+		switch objFullName(calleeObj(pk, call)) {
+		case "reflect.DeepEqual", "slices.Equal", "maps.Equal", "bytes.Equal":
+			if f, ok := pair(call.Args[0], call.Args[1]); ok {
+				fl.cmp[f] = call.Pos()
+				return
+			}
+		}
+	}
+	fl.other = append(fl.other, d.String())
 }
